@@ -30,7 +30,7 @@ NOT_DECIDED = ["float32 rounding, conditioning of the quartic solver and of the 
                "lprmsd (permutation search)"]
 ASSUMPTIONS = ["exact real arithmetic for the identities", "lane semantics of the SSE intrinsics as tabulated in sa/symval.py",
                "largest eigenvalue of K gives the optimal rotation (Theobald 2005; Horn 1987)"]
-FLOORS = {"C06-R1": 8, "C06-R2": 10, "C06-R3": 8, "C06-R4": 30, "C06-R5": 20, "C06-R6": 20}
+FLOORS = {"C06-R1": 8, "C06-R2": 10, "C06-R3": 8, "C06-R4": 30, "C06-R5": 20, "C06-R6": 20, "C06-R7": 18}
 
 PYX = "mdtraj/rmsd/_rmsd.pyx"
 TRAJ = "mdtraj/core/trajectory.py"
@@ -53,6 +53,8 @@ def check(ctx):
     facts = r4(ctx)
     r5(ctx, facts)
     r6(ctx)
+    ctx.rule("C06-R7", "every sqrt / acos / pow(.,1/3) / division of the closed-form cubic and quartic solvers is evaluated only where the conditions on its path put the argument inside the function's domain")
+    r7_partial_functions(ctx)
 
 
 # ---------------------------------------------------------------------------------------------------
@@ -765,3 +767,90 @@ def _centred_buffers(fn):
                 if re.search(r"\b%s\b" % re.escape(nm), s) and n.lineno > ln and t not in centred_at:
                     out[t] = True
     return out
+
+
+# ---------------------------------------------------------------------------------------------------
+def r7_partial_functions(ctx):
+    """The closed-form cubic / quartic solvers use sqrt, acos, real cube roots and divisions.  Each of them is defined only on part of the
+    reals; where the argument leaves that part the result is NaN and lambda_max collapses (rmsd = sqrt((Ga+Gb)/N) for identical structures).
+    For every such operation the facts that hold on its path (if / ?: conditions, clang AST) must put the argument inside the domain."""
+    cf = C.get(ctx.repo)
+    norm = lambda t: re.sub(r"[\s()]", "", t)      # noqa: E731  (clang text is fully parenthesised; the operands here are products and sums of plain names)
+    n_ops = n_bad = 0
+    for fname in ("solve_cubic_equation", "quartic_equation_solve_exact"):
+        fn = cf.function(TH, fname)
+        ctx.analysed_functions.add(TH + ":" + fname)
+        g = C.guards(fn)
+        inits = {v.get("name"): norm(C.text(C.kids(v)[-1])) for v in C.walk(fn) if v["kind"] == "VarDecl" and C.kids(v)}
+        for a in C.walk(fn):
+            if a["kind"] == "BinaryOperator" and a.get("opcode") == "=" and C.ref_name(C.kids(a)[0]):
+                inits.setdefault(C.ref_name(C.kids(a)[0]), norm(C.text(C.kids(a)[1])))
+        pnames = {p.get("name") for p in C.fparams(fn)}
+        delta_ok = inits.get("delta", "") in ("q*q*q+r*r", "r*r+q*q*q")
+
+        def has(node, text, pol):
+            return any(norm(f) == text and p == pol for f, p in g.get(node["id"], []))
+
+        def strict_negative_delta(node):
+            return delta_ok and (has(node, "delta<0.0", True) or has(node, "delta<0", True))
+
+        def decide(node, what, ok, why):
+            nonlocal n_ops, n_bad
+            n_ops += 1
+            n_bad += 0 if ok else 1
+            ctx.decide(ok, "C06-R7", C.line(node), TH, fname, what, "", why)
+        for n in C.walk(C.body_of(fn)):
+            k = n["kind"]
+            if k == "CallExpr":
+                name = C.callee_name(n) or ""
+                name = {"__builtin_sqrt": "sqrt", "__builtin_acos": "acos", "__builtin_pow": "pow"}.get(name, name)
+                args = C.call_args(n)
+                if name == "sqrt":
+                    at = norm(C.text(args[0]))
+                    core = at
+                    lit = C.strip(args[0])["kind"] in ("FloatingLiteral", "IntegerLiteral")
+                    if lit:
+                        continue
+                    if core in ("-q*q*q", "-q"):
+                        decide(n, "sqrt(%s) is taken under delta = q^3 + r^2 < 0 (then q < 0)" % core, strict_negative_delta(n),
+                               "sqrt(%s) is evaluated on a path where delta < 0 is not established: with delta = 0 and q = 0 the argument is 0 and the quotient r/sqrt(-q^3) is 0/0" % core)
+                    elif core == "u1*u1-4.0*a0":
+                        ctx.note("C06-R7", C.line(n), TH, fname, "sqrt(u1^2 - 4 a0)", "not decided: non-negative for a real root u1 of the resolvent when R = 0 (theory of the quartic), no guard in the code")
+                    else:
+                        ok = has(n, core + ">0.0", True) or has(n, core + ">=0.0", True) or has(n, core + ">0", True) or has(n, core + ">=0", True)
+                        decide(n, "sqrt(%s) under %s >= 0" % (core, core), ok, "no condition on this path makes `%s` non-negative before its square root is taken" % core)
+                elif name == "acos":
+                    at = re.sub(r"[()]", "", norm(C.text(args[0])))
+                    decide(n, "acos(r / sqrt(-q^3)) under delta < 0 (|argument| < 1)", at == "r/sqrt-q*q*q" and strict_negative_delta(n),
+                           "acos(%s) is evaluated on a path where delta = q^3 + r^2 < 0 is not established: at a triple root (q = r = 0) the argument is 0/0 = NaN and every root becomes NaN" % norm(C.text(args[0])))
+                elif name == "pow":
+                    base = norm(C.text(args[0]))
+                    core = base
+                    if core.startswith("-"):
+                        v = core[1:]
+                        ok = has(n, v + ">=0.0", False) or has(n, v + ">0.0", False)
+                    else:
+                        ok = has(n, core + ">=0.0", True) or has(n, core + ">0.0", True)
+                    decide(n, "pow(%s, 1/3) with a non-negative base" % core, ok and re.sub(r"[()]", "", norm(C.text(args[1]))) in ("1./3.", "1.0/3.0"), "cube root of `%s` through pow() on a path where its sign is not established" % core)
+            elif k == "BinaryOperator" and n.get("opcode") == "/":
+                d = C.strip(C.kids(n)[1])
+                if d["kind"] in ("FloatingLiteral", "IntegerLiteral"):
+                    continue
+                dt = norm(C.text(d))
+                if dt in pnames:
+                    continue        # leading coefficient: call sites checked below
+                if dt.startswith("sqrt"):
+                    decide(n, "division by sqrt(-q^3) under delta < 0", strict_negative_delta(n), "division by `%s` on a path where delta < 0 is not established" % dt)
+                else:
+                    ok = has(n, dt + "!=0.0", True) or has(n, dt + "==0.0", False) or has(n, dt + "!=0", True)
+                    decide(n, "division by %s under %s != 0" % (dt, dt), ok, "division by `%s` on a path where it may be zero" % dt)
+    # leading coefficients are the literal 1.0 at both call sites
+    for caller, callee, pos in (("DirectSolve", "quartic_equation_solve_exact", -1), ("quartic_equation_solve_exact", "solve_cubic_equation", 0)):
+        fn = cf.function(TH, caller)
+        calls = [n for n in C.walk(fn) if n["kind"] == "CallExpr" and C.callee_name(n) == callee]
+        lead = [C.strip(C.call_args(c)[pos]) for c in calls]
+        ok = len(calls) == 1 and lead[0]["kind"] == "FloatingLiteral" and float(lead[0].get("value")) == 1.0
+        n_ops += 1
+        ctx.decide(ok, "C06-R7", C.line(calls[0]) if calls else C.line(fn), TH, caller, "%s is called with leading coefficient 1.0 (the divisions by it are exact)" % callee, "", "leading coefficient passed to %s is not the literal 1.0" % callee)
+    if n_ops < 18 and not n_bad:
+        raise AnalysisError("C06-R7: only %d partial operations found in the cubic / quartic solvers (20 confirmed by hand)" % n_ops)
